@@ -117,7 +117,8 @@ theorem retry_timeout_not_stuck (w : World) (k : Nat) (e : Entry) (rest : List E
   (retryLoop_of_fail w k e e .timeout rest hst (af_runEntry_raw _ k e he)
     (runEntry_raw_silent { w with totalRetries := w.totalRetries + 1 } k e frest he ht ha hf)).2.2.2.1
 
-/-! ### the task goroutine then closes the connection, and the reconnect loop goes on to dial again -/
+/-! ### the task goroutine then closes the connection, and the reconnect loop backs off and (when the
+    back-off timer fires: `.waitElapsed`) dials again -/
 
 /-- one iteration of the task goroutine whose task ends with the close mark set: the current connection
     is closed, the mark cleared, the goroutine goes on from there; errors and retry queue untouched -/
@@ -142,39 +143,78 @@ theorem close_after_task (fuel : Nat) (w : World) (k : Nat) (t : Task) (rest : L
     rw [← hv]
     simp [view, kill, setConn]
 
-/-- the reconnect loop: connection `k` has ended and the client has not been stopped → dial again -/
+/-- the reconnect loop: connection `k` has ended and the client has not been stopped → the loop backs
+    off (the wait is logged; no DialContext call yet) and dials again when the back-off timer fires -/
 theorem loop_redials (w : World) (k : Nat) (hp : w.phase = .up k) (hd : (getConn w k).alive = false)
     (hs : w.stopped = false) :
-    (loopReact w).phase = .dialGate ∧ (loopReact w).dials = w.dials + 1 ∧
-    (loopReact w).waits = w.waits ++ [w.waitExp] := by
-  rw [loopReact_redial w k hp hd hs]; exact ⟨rfl, rfl, rfl⟩
+    (loopReact w).phase = .backoff ∧ (loopReact w).dials = w.dials ∧
+    (loopReact w).waits = w.waits ++ [w.waitExp] ∧
+    (step (loopReact w) .waitElapsed).phase = .dialGate ∧
+    (step (loopReact w) .waitElapsed).dials = w.dials + 1 := by
+  rw [waitElapsed_step _ (by rw [loopReact_backoff w k hp hd hs]), loopReact_backoff w k hp hd hs]
+  exact ⟨rfl, rfl, rfl, rfl, rfl⟩
+
+/-- what "a new connection is established" means for the world `w'` reached from `w` (reconnect loop on
+    connection `k`) by a task that timed out:
+    connection `k` is closed and the loop is backing off (the wait is logged, no DialContext call yet,
+    the close mark has been honoured); the back-off timer then makes the loop call DialContext, and does
+    nothing else; cancelling the context once given to ReconnectClient.Connect cannot prevent that
+    (Connect has returned: `exec_UpReturned` discharges the premise for every reachable `w`);
+    only Disconnect can: the loop then exits without dialling. -/
+structure Redials (w w' : World) (k : Nat) : Prop where
+  closed : (getConn w' k).alive = false
+  backoff : w'.phase = .backoff
+  noDialYet : w'.dials = w.dials
+  waitLogged : w'.waits = w.waits ++ [w.waitExp]
+  markCleared : w'.stuck = false → w'.closeAfterTask = false
+  timer : step w' .waitElapsed = { w' with phase := .dialGate, dials := w.dials + 1 }
+  cancel : w.connectReturned.isSome = true → step w' .cancelCtx = w'
+  disconnect : (step w' .disconnect).phase = .exited ∧ (step w' .disconnect).dials = w.dials
+
+/-- the old conclusions, now after the timer event: connection closed, the loop inside DialContext, one
+    more dial, the close mark honoured -/
+theorem Redials.after_timer {w w' : World} {k : Nat} (h : Redials w w' k) :
+    let w'' := step w' .waitElapsed
+    (getConn w'' k).alive = false ∧ w''.phase = .dialGate ∧ w''.dials = w.dials + 1 ∧
+    (w''.stuck = false → w''.closeAfterTask = false) := by
+  dsimp only
+  rw [h.timer]
+  exact ⟨h.closed, rfl, rfl, h.markCleared⟩
 
 /-- both together, for a whole `progress`: whatever tasks are still queued behind it, a task that ends
-    with the close mark set leaves connection `k` closed and the reconnect loop dialling -/
+    with the close mark set leaves connection `k` closed and the reconnect loop backing off, to dial
+    again when the timer fires -/
 theorem closes_and_redials (w : World) (k : Nat) (t : Task) (rest : List Task)
     (hp : w.phase = .up k) (hstop : w.stopped = false)
     (hg : w.goroutine = true) (hs : w.stuck = false) (hc : w.gConnected = true ∨ w.connReady = true)
     (hq : w.taskQ = t :: rest) (hk : w.cli = some k) (hlt : k < w.conns.length) :
     let w1 := runTask { w with gConnected := true, taskQ := rest, totalTasks := w.totalTasks + 1 } k t
     w1.stuck = false → w1.closeAfterTask = true →
-    let w' := progress w
-    (getConn w' k).alive = false ∧ w'.phase = .dialGate ∧ w'.dials = w.dials + 1 ∧
-    (w'.stuck = false → w'.closeAfterTask = false) := by
-  intro w1 h1 h2 w'
+    Redials w (progress w) k := by
+  intro w1 h1 h2
   obtain ⟨w2, e, hd, hf, _, _, _, _, hv⟩ :=
     close_after_task (rest.length + 1) w k t rest hg hs hc hq hk hlt h1 h2
-  have hw' : w' = loopReact (runTasks (rest.length + 1) w2) := by
+  have hw' : progress w = loopReact (runTasks (rest.length + 1) w2) := by
     show loopReact (runTasks (w.taskQ.length + 1) w) = _
     rw [hq, List.length_cons, e]
   have hv3 : view (runTasks (rest.length + 1) w2) = view w := (view_runTasks _ _).trans hv
   have hd3 := runTasks_dead (rest.length + 1) w2 k hd
   simp only [view, View.mk.injEq] at hv3
-  obtain ⟨_, _, _, _, p5, p6, p7, _⟩ := hv3
-  have hr := loopReact_redial (runTasks (rest.length + 1) w2) k (p5.trans hp) hd3 (p7.trans hstop)
-  rw [hw', hr]
-  refine ⟨hd3, rfl, by show _ + 1 = _; rw [p6], ?_⟩
-  intro hst
-  exact runTasks_flag _ _ hf hst
+  obtain ⟨_, _, _, _, p5, p6, p7, p8, p9, _, _, _, p13, _⟩ := hv3
+  have hr := loopReact_backoff (runTasks (rest.length + 1) w2) k (p5.trans hp) hd3 (p7.trans hstop)
+  have hflag : (progress w).stuck = false → (progress w).closeAfterTask = false := by
+    rw [hw', hr]; intro hst; exact runTasks_flag _ _ hf hst
+  have hph : (progress w).phase = .backoff := by rw [hw', hr]
+  have hdl : (progress w).dials = w.dials := by rw [hw', hr]; exact p6
+  have hsp : (progress w).stopped = false := by rw [hw', hr]; exact p7.trans hstop
+  have hcr : (progress w).connectReturned = w.connectReturned := by rw [hw', hr]; exact p13
+  refine ⟨?_, hph, hdl, ?_, hflag, ?_, ?_, ?_⟩
+  · rw [hw', hr]; exact hd3
+  · rw [hw', hr]; show _ ++ [_] = _; rw [p8, p9]
+  · rw [waitElapsed_step _ hph, hdl]
+  · intro h; exact cancelCtx_noop _ (by rw [hcr]; exact h)
+  · obtain ⟨d1, d2, _⟩ := disconnect_in_backoff _ hph hsp
+    exact ⟨d1, d2.trans hdl⟩
 
 /-- first transmission of a QoS ≥ 1 PUBLISH meeting a silent broker, end to end -/
 theorem silent_publish_redials (w : World) (k m qos : Nat) (rest : List Task) (frest : List Fault)
@@ -183,9 +223,7 @@ theorem silent_publish_redials (w : World) (k m qos : Nat) (rest : List Task) (f
     (hp : w.phase = .up k) (hstop : w.stopped = false)
     (hg : w.goroutine = true) (hs : w.stuck = false) (hc : w.gConnected = true ∨ w.connReady = true)
     (hq : w.taskQ = .req (.pub m qos) :: rest) (hk : w.cli = some k) (hlt : k < w.conns.length) :
-    let w' := progress w
-    (getConn w' k).alive = false ∧ w'.phase = .dialGate ∧ w'.dials = w.dials + 1 ∧
-    (w'.stuck = false → w'.closeAfterTask = false) := by
+    Redials w (progress w) k := by
   have h := first_tx_timeout { w with gConnected := true, taskQ := rest, totalTasks := w.totalTasks + 1 } k m qos
     ht ha hq0 frest hf hs
   have he : runTask { w with gConnected := true, taskQ := rest, totalTasks := w.totalTasks + 1 } k (.req (.pub m qos))
@@ -201,9 +239,7 @@ theorem silent_retry_redials (w : World) (k : Nat) (e : Entry) (es : List Entry)
     (hp : w.phase = .up k) (hstop : w.stopped = false)
     (hg : w.goroutine = true) (hs : w.stuck = false) (hc : w.gConnected = true ∨ w.connReady = true)
     (hq : w.taskQ = .retry :: rest) (hk : w.cli = some k) (hlt : k < w.conns.length) :
-    let w' := progress w
-    (getConn w' k).alive = false ∧ w'.phase = .dialGate ∧ w'.dials = w.dials + 1 ∧
-    (w'.stuck = false → w'.closeAfterTask = false) := by
+    Redials w (progress w) k := by
   have h1 := retry_timeout
     { w with gConnected := true, taskQ := rest, totalTasks := w.totalTasks + 1, retryQ := [] } k e es he ht ha frest hf hs
   have h2 := retry_timeout_not_stuck
@@ -213,43 +249,72 @@ theorem silent_retry_redials (w : World) (k : Nat) (e : Entry) (es : List Entry)
     simp [runTask, hr]
   exact closes_and_redials w k _ rest hp hstop hg hs hc hq hk hlt (by rw [hrt]; exact h2) (by rw [hrt]; exact h1.2.2)
 
+/-- in every reachable world with a connection up, ReconnectClient.Connect has returned: the premise of
+    `Redials.cancel` holds, cancelling the old context changes nothing -/
+theorem up_connect_returned (s : Script) (k : Nat) (h : (exec s).phase = .up k) :
+    (exec s).connectReturned.isSome = true ∧ step (exec s) .cancelCtx = exec s :=
+  ⟨exec_UpReturned s k h, cancelCtx_noop _ (exec_UpReturned s k h)⟩
+
 /-! ### after Disconnect the reconnect loop never dials again
 
-  True of the refined model only (before, a failed Connect or a failed dial after Disconnect still
-  backed off and dialled). The hypothesis `phase ≠ .idle` is needed: Disconnect before
-  ReconnectClient.Connect leaves the loop un-started, and a later Connect does dial once (see the
-  example below). -/
+  The hypothesis `phase ≠ .idle` is needed: Disconnect before ReconnectClient.Connect leaves the loop
+  un-started, and a later Connect does dial once (see the example below). For an arbitrary world the
+  hypothesis `phase ≠ .backoff` is needed as well (a stopped world in `.backoff` would dial on
+  `.waitElapsed`); no reachable world is like that (`stopped_not_backoff`: Disconnect releases the
+  back-off select, and every failure path tests `stopped` before backing off), so the statement about
+  runs needs no such hypothesis. A DialContext call in flight when Disconnect arrives is not a new call:
+  its result is acted on (`.dialOk`: CONNECT goes out on the new transport, then the loop exits). -/
 
-theorem no_dial_after_disconnect (w : World) (es : List Ev) (hs : w.stopped = true) (hp : w.phase ≠ .idle) :
+theorem no_dial_after_disconnect (w : World) (es : List Ev) (hs : w.stopped = true) (hp : w.phase ≠ .idle)
+    (hb : w.phase ≠ .backoff) :
     (es.foldl step w).dials = w.dials ∧ (es.foldl step w).stopped = true := by
   induction es generalizing w with
   | nil => exact ⟨rfl, hs⟩
   | cons e es ih =>
-    obtain ⟨h1, h2, h3⟩ := step_stopped w e hs hp
-    obtain ⟨i1, i2⟩ := ih (step w e) h2 h3
+    obtain ⟨h2, h4, h13⟩ := step_stopped w e hs hb
+    obtain ⟨h1, h3⟩ := h13 hp
+    obtain ⟨i1, i2⟩ := ih (step w e) h2 h3 h4
     exact ⟨i1.trans h1, i2⟩
 
 /-- in particular: whatever happens after a run that ended stopped, no further DialContext call -/
 theorem no_dial_after_disconnect_run (s : Script) (es : List Ev) (hs : (exec s).stopped = true)
     (hp : (exec s).phase ≠ .idle) :
     (exec { s with evs := s.evs ++ es }).dials = (exec s).dials := by
-  have := (no_dial_after_disconnect (exec s) es hs hp).1
+  have := (no_dial_after_disconnect (exec s) es hs hp (stopped_not_backoff s hs)).1
   simpa [exec, init, List.foldl_append] using this
 
-/-- Disconnect while the CONNACK is outstanding, then the Connect fails: the loop exits, no new dial -/
-example : (exec { evs := [.start, .dialOk 0, .disconnect, .connackRefused, .dialOk 0] }).dials = 1 ∧
-    (exec { evs := [.start, .dialOk 0, .disconnect, .connackRefused, .dialOk 0] }).phase = .exited ∧
-    (exec { evs := [.start, .dialOk 0, .disconnect, .connackRefused, .dialOk 0] }).conns.length = 1 := by decide
+/-- Disconnect while the CONNACK is outstanding, then the Connect fails: the loop exits, no back-off, no
+    new dial (not even when a timer event arrives) -/
+example : let s : Script := { evs := [.start, .dialOk 0, .disconnect, .connackRefused, .waitElapsed, .dialOk 0] }
+    (exec s).dials = 1 ∧ (exec s).phase = .exited ∧ (exec s).conns.length = 1 ∧ (exec s).waits = [] := by decide
+
+/-- Disconnect while the loop is backing off (after a refused CONNECT): the loop exits; the timer event
+    that arrives afterwards does not make it dial -/
+example : let s : Script := { evs := [.start, .dialOk 0, .connackRefused, .disconnect, .waitElapsed, .dialOk 0] }
+    (exec s).dials = 1 ∧ (exec s).phase = .exited ∧ (exec s).conns.length = 1 ∧ (exec s).waits = [0] := by decide
+
+/-- Disconnect while DialContext is in flight, the dial then succeeds: the connection is created and
+    CONNECT goes out on it (that call had started before Disconnect); after the CONNACK the queued
+    Disconnect task writes DISCONNECT and closes it, the loop exits; no second DialContext call -/
+example : let s : Script := { evs := [.start, .disconnect, .dialOk 0, .connackOk false [], .waitElapsed, .dialOk 0] }
+    (exec s).dials = 1 ∧ (exec s).phase = .exited ∧ (exec s).conns.length = 1 ∧
+    (getConn (exec s) 0).pkts = [(.connect, .sent .ok), (.disconnect, .sent .ok)] ∧
+    (getConn (exec s) 0).alive = false ∧ (exec s).stopped = true := by decide
+
+/-- … and if that dial fails, the loop exits without backing off -/
+example : let s : Script := { evs := [.start, .disconnect, .dialFail, .waitElapsed, .dialOk 0] }
+    (exec s).dials = 1 ∧ (exec s).phase = .exited ∧ (exec s).conns.length = 0 ∧ (exec s).waits = [] := by decide
 
 /-- why `phase ≠ .idle` is needed -/
 example : (exec { evs := [.disconnect] }).dials = 0 ∧ (exec { evs := [.disconnect, .start] }).dials = 1 := by decide
 
 /-! ### non-vacuity: one QoS 1 message over three connections; the PUBACK is lost on the first, the
-    broker is silent on the second (retransmission), the third delivers -/
+    broker is silent on the second (retransmission), the third delivers. Each redial needs the back-off
+    timer event. -/
 
 def evs : List Ev :=
   [.start, .dialOk 0, .connackOk false [], .app (.pub 0 1),
-   .dialOk 0, .connackOk true [], .dialOk 0, .connackOk true []]
+   .waitElapsed, .dialOk 0, .connackOk true [], .waitElapsed, .dialOk 0, .connackOk true []]
 
 def demo : Script := { cfg := { respTimeout := true }, faults := [.lostAck, .silent], evs := evs }
 
@@ -258,7 +323,12 @@ def demoNoTimeout : Script := { faults := [.lostAck, .silent], evs := evs }
 
 example : (exec demo).broker.acked = [.pub 0 1] ∧ (exec demo).onErrors = [.retryable, .timeout] ∧
     (exec demo).conns.length = 3 ∧ (exec demo).stuck = false ∧ (exec demo).retryQ = [] ∧
-    (exec demo).phase = .up 2 := by decide
+    (exec demo).phase = .up 2 ∧ (exec demo).dials = 3 ∧ (exec demo).waits = [0, 0] := by decide
+
+/-- without the timer events the loop stays in the back-off: `.dialOk` alone does nothing -/
+example : let s : Script := { demo with evs := evs.filter (fun e => match e with | .waitElapsed => false | _ => true) }
+    (exec s).phase = .backoff ∧ (exec s).conns.length = 1 ∧ (exec s).dials = 1 ∧
+    (exec s).retryQ = [.rePublish 0 1] := by decide
 
 /-- this is why the property needs the timeout -/
 example : (exec demoNoTimeout).stuck = true ∧ (exec demoNoTimeout).broker.acked = [] ∧
@@ -269,8 +339,23 @@ def demoFirst : Script :=
   { cfg := { respTimeout := true }, faults := [.silent],
     evs := [.start, .dialOk 0, .connackOk false [], .app (.pub 0 2)] }
 
-example : (exec demoFirst).phase = .dialGate ∧ (exec demoFirst).dials = 2 ∧
+example : (exec demoFirst).phase = .backoff ∧ (exec demoFirst).dials = 1 ∧ (exec demoFirst).waits = [0] ∧
     (exec demoFirst).onErrors = [.timeout] ∧ (exec demoFirst).retryQ = [.rePublish 0 2] ∧
     (getConn (exec demoFirst) 0).alive = false ∧ (exec demoFirst).stuck = false := by decide
+
+/-- the timer fires: the loop is inside DialContext again, second call -/
+example : let s : Script := { demoFirst with evs := demoFirst.evs ++ [.waitElapsed] }
+    (exec s).phase = .dialGate ∧ (exec s).dials = 2 ∧ (exec s).retryQ = [.rePublish 0 2] := by decide
+
+/-- cancelling the context once given to ReconnectClient.Connect while the loop backs off after the
+    timeout changes nothing (Connect has returned): the redial happens, the request is retransmitted -/
+example : let s : Script := { demoFirst with evs := demoFirst.evs ++ [.cancelCtx, .waitElapsed, .dialOk 0, .connackOk true []] }
+    (exec s).phase = .up 1 ∧ (exec s).dials = 2 ∧ (exec s).broker.acked = [.pub 0 2] ∧ (exec s).retryQ = [] ∧
+    (exec s).ctxCancelled = false ∧ (exec s).connectErr = false := by decide
+
+/-- Disconnect during that back-off: the loop exits, no redial, the request stays in the retry queue -/
+example : let s : Script := { demoFirst with evs := demoFirst.evs ++ [.disconnect, .waitElapsed, .dialOk 0] }
+    (exec s).phase = .exited ∧ (exec s).dials = 1 ∧ (exec s).conns.length = 1 ∧
+    (exec s).retryQ = [.rePublish 0 2] := by decide
 
 end Mqtt.C18
